@@ -297,7 +297,7 @@ def minimizer_structures(ctx):
                 verdict(ctx, R, ok, '%s/headers-and-block-ids' % label, fn, {'returned': T.show(t)[:260]}, cfg)
             nwr = 0
             for (p_, head, bst, bmap, valid, cur) in ip.back_states:
-                pos = [hv for hv, ev in bmap if hv[0] == 'var' and 'iter.pos@' in hv[1]]
+                pos = [hv for hv, ev in bmap if hv[0] == 'var' and '.pos@' in hv[1]]
                 for c in bst.frames[-1].cells:
                     v = c.v
                     while isinstance(v, X.Ref):
@@ -412,7 +412,7 @@ def matcher_leaves(ctx):
             return good and (a[1][2] == T.mk_add(i, pos) or (a[1][2][0] == 'var' and 'wrap_add' in a[1][2][1]) or ip.entails(st, eq(a[1][2], T.mk_add(i, pos))))
         okit = len(log.iterations) >= 1
         for it in log.iterations:
-            pos = [hv for hv, ev in it.mapping if hv[0] == 'var' and 'iter.pos@' in hv[1]]
+            pos = [hv for hv, ev in it.mapping if hv[0] == 'var' and '.pos@' in hv[1]]
             cs = it.named('match_char_set')
             ok = len(pos) == 1 and len(cs) == 1 and len(it.calls) == 1 and cmp_ok(cs[0], pos[0], it.state) and ip.entails(it.state, T.typed(calllog.call_term(cs[0]), 'bool')) and \
                 ip.entails(it.state, eq(it.cur.get(pos[0], pos[0]), T.mk_add(pos[0], I(1))))
@@ -488,7 +488,7 @@ def matcher_leaves(ctx):
         ip, fn = log.ip, log.fn
         okit = len(log.iterations) >= 1
         for it in log.iterations:
-            pos = [hv for hv, ev in it.mapping if hv[0] == 'var' and 'iter.pos@' in hv[1]]
+            pos = [hv for hv, ev in it.mapping if hv[0] == 'var' and '.pos@' in hv[1]]
             ok = len(pos) == 1 and not it.calls and ip.entails(it.state, discr(('fld', ('elem', A(0), pos[0]), 'expr'), 2))
             if ok:
                 # exactly one element appended per iteration: the set of that Range
